@@ -333,11 +333,10 @@ def avl_huge_state_case(rng, cid, n=66000, lay='u32u32'):
     raw, nn, cap = avl_state_bytes(rng, 32, lay, bal_shape(n), 3, 4)
     top = 2 * n
     mid = 2 * (n // 2)
-    ops = ['len', 'full', 'capq', 'low', 'get %d' % top, 'get %d' % mid, 'get 2', 'has %d' % (top + 1), 'has 1',
-           'ins %d 5' % (top + 1), 'ins %d 6' % (mid + 1), 'ins 1 7', 'ins %d 8' % mid, 'len',
-           'rem %d' % mid, 'rem 2', 'rem %d' % top, 'rem %d' % (top + 3), 'gmut %d 9' % (mid + 2), 'get %d' % (mid + 2),
-           'low', 'len', 'openro', 'len', 'get %d' % (mid + 1), 'ins %d 1' % (top + 5), 'ins %d 1' % (top + 7),
-           'ins %d 1' % (top + 9), 'ins %d 1' % (top + 11), 'ins %d 1' % (top + 13), 'ins %d 1' % (top + 15), 'full', 'len']
+    ops = ['len', 'low', 'get %d' % top, 'has %d' % (top + 1), 'ins %d 5' % (top + 1), 'ins %d 6' % (mid + 1), 'ins 1 7',
+           'ins %d 8' % mid, 'rem %d' % mid, 'rem 2', 'rem %d' % top, 'gmut %d 9' % (mid + 2), 'low', 'len',
+           'ins %d 1' % (top + 5), 'ins %d 1' % (top + 7), 'ins %d 1' % (top + 9), 'ins %d 1' % (top + 11),
+           'ins %d 1' % (top + 13), 'ins %d 1' % (top + 15), 'full', 'len']
     uni = sorted({1, 2, 3, 4, mid - 2, mid, mid + 1, mid + 2, top - 2, top, top + 1, top + 3, top + 5, top + 7, top + 9, top + 11, top + 13, top + 15})
     return Case(cid, 'avl', {'bits': 32, 'lay': lay, 'raw': raw.hex(), 'mode': 'persistent'}, ops, {'stream': 'L', 'uni': uni})
 
@@ -349,7 +348,7 @@ def hash_huge_state_case(rng, cid, n=66000, vty='u32'):
     ops = ['size', 'full', 'capq', 'has 100', 'has %d' % (99 + n), 'has %d' % (100 + n), 'has 5', 'ins 5', 'ins 100', 'ins %d' % (100 + n),
            'size', 'rem 100', 'rem %d' % (100 + n // 2), 'rem 6', 'has 100', 'size', 'ins 7', 'ins 8', 'ins 9', 'ins 10', 'ins 11',
            'ins 12', 'ins 13', 'full', 'size', 'rem %d' % (99 + n), 'ins 14', 'has 14', 'size']
-    return Case(cid, 'hash', {'vty': vty, 'raw': raw.hex(), 'mode': 'persistent'}, ops, {'stream': 'L'})
+    return Case(cid, 'hash', {'vty': vty, 'raw': raw.hex(), 'lite': 1, 'mode': 'persistent'}, ops, {'stream': 'L'})
 
 def avl_session_case(rng, cid, bits=None, lay=None):
     """a tree initialised with a capacity smaller than the record count of its buffer and used through
